@@ -313,6 +313,20 @@ def _task_families(thorough):
                                              b'\0' * 64)))
         fam.append(('deep-variant', raw_message(
             'v', (b'\x01v\0' * depth) + b'\x01y\0\x07')))
+    # many sibling containers at one level (legal signatures): iterating
+    # the signature must stay polynomial in its length
+    for unit in ('ai', 'ay', 'a{sv}', '(y)', 'aay', 'a(ii)', 'v', 'a{s(ai)}'):
+        for n in (8, 14, 22, 40, 127):
+            sig = (unit * n)[:254]
+            if not R.is_valid_sig(sig):
+                sig = sig[:len(sig) - len(sig) % len(unit)]
+            fam.append(('siblings:' + unit, raw_message(sig, b'\0' * 1024)))
+            fam.append(('siblings:' + unit,
+                        raw_message('(' + sig[:250] + ')', b'\0' * 1024,
+                                    little=False)))
+        fam.append(('siblings-in-variant:' + unit, raw_message(
+            'v', bytes([len(unit) * 20]) + (unit * 20).encode() + b'\0'
+            + b'\0' * 512)))
     # lying lengths on large inputs: work must stay proportional
     for size in ((20000,) if not thorough else (20000, 200000)):
         fam.append(('big-ay', raw_message('ay', struct.pack('<I', size)
